@@ -1,4 +1,7 @@
-import DcmVerif.Props.SourceMeta
+import DcmVerif.Props.Source_classes
+import DcmVerif.Props.Source_simplify
+import DcmVerif.Props.Source_shapes
+import DcmVerif.Props.Source_valid
 import DcmVerif.Proofs.Chains
 import DcmVerif.Proofs.Produced
 import DcmVerif.Proofs.Ext
